@@ -262,7 +262,7 @@ class Gate(object):
     def before_read(self, core):
         s = self.get_sched()
         if s is not None and self._need(core) and current_name() in s.th:
-            s.boundary('read', lambda: bool(core.dev.wire))
+            s.boundary('read', lambda: bool(core.dev.wire) or core.force_timeout)
 
     def before_write(self, core):
         pass
@@ -270,7 +270,7 @@ class Gate(object):
     async def before_read_async(self, core):
         s = self.get_sched()
         if s is not None and self._need(core) and current_name() in s.th:
-            await s.aboundary('read', lambda: bool(core.dev.wire))
+            await s.aboundary('read', lambda: bool(core.dev.wire) or core.force_timeout)
 
     async def before_write_async(self, core):
         pass
